@@ -967,7 +967,8 @@ fn run_watched(report: &Report, args: Vec<String>) {
                 .spawn()
                 .unwrap_or_else(|e| machinery_failure(&format!("spawn c04 confirmation worker: {e}")));
             let heavy = hist.contains("big") || hist.contains("fill1");
-            let until = std::time::Instant::now() + Duration::from_secs(4 * WATCHDOG_S + 60 + if heavy { 900 } else { 0 });
+            // (the slowest legitimate heavy history of the quick tier takes about a minute when run alone)
+            let until = std::time::Instant::now() + Duration::from_secs(4 * WATCHDOG_S + 60 + if heavy { report.tier().pick(180, 900) as u64 } else { 0 });
             let mut finished = false;
             while std::time::Instant::now() < until {
                 if let Ok(Some(_)) = confirm.try_wait() {
